@@ -81,21 +81,28 @@ StepOk(s, name) ==
     [] pos[s] = 3 -> name = (IF triple[s] = "commit" THEN "acommit" ELSE "arollback")
     [] pos[s] = 4 -> name = "aclose"
     [] OTHER -> FALSE
+\* a listener event that stands for a protocol step of scope s: the scope's own listener -- or an ANCESTOR's listener
+\* that fails on it (the ancestors' listeners run first; the first failure ends the trigger, so the scope's own
+\* listener is not called for that step and the failure is the step's error)
+StepEffect(s, name, fails) ==
+   /\ (StepOk(s, name) = TRUE)
+   /\ pos' = [pos EXCEPT ![s] = @ + 1]
+   /\ triple' = IF pos[s] = 1 THEN [triple EXCEPT ![s] = IF name = "bcommit" THEN "commit" ELSE "rollback"] ELSE triple
+   /\ errEnded' = [errEnded EXCEPT ![cfg[s].ctx] = @ \/ fails]
+   /\ errStarted' = [errStarted EXCEPT ![cfg[s].ctx] = @ \/ fails]
+   /\ ctxDone' = [ctxDone EXCEPT ![cfg[s].ctx] = @ \/ fails]
+   /\ mustRollback' = [mustRollback EXCEPT ![s] = @ \/ (fails /\ name = "bclose")]
+   /\ listenerFailed' = [listenerFailed EXCEPT ![s] = @ \/ fails]
 Event == /\ IsEv("event")
          /\ LET s == Ev.subject  o == Ev.owner IN
             /\ s \in Ids /\ o \in Ids
-            /\ IF o # s
+            /\ IF o # s /\ ~Ev.fails
                THEN /\ (IsAncestor(o, s) = TRUE)            \* a bubbled copy: only an ancestor's listener may see it
                     /\ UNCHANGED <<pos, triple, errEnded, errStarted, ctxDone, mustRollback, listenerFailed>>
-               ELSE /\ (StepOk(s, Ev.name) = TRUE)
-                    /\ pos' = [pos EXCEPT ![s] = @ + 1]
-                    /\ triple' = IF pos[s] = 1 THEN [triple EXCEPT ![s] = IF Ev.name = "bcommit" THEN "commit" ELSE "rollback"] ELSE triple
-                    /\ errEnded' = [errEnded EXCEPT ![cfg[s].ctx] = @ \/ Ev.fails]
-                    /\ errStarted' = [errStarted EXCEPT ![cfg[s].ctx] = @ \/ Ev.fails]
-                    /\ ctxDone' = [ctxDone EXCEPT ![cfg[s].ctx] = @ \/ Ev.fails]
-                    /\ mustRollback' = [mustRollback EXCEPT ![s] = @ \/ (Ev.fails /\ Ev.name = "bclose")]
-                    /\ listenerFailed' = [listenerFailed EXCEPT ![s] = @ \/ Ev.fails]
-         /\ errAtStart' = IF Ev.owner = Ev.subject THEN Resample(pend, pos', errEnded') ELSE errAtStart
+                    /\ errAtStart' = errAtStart
+               ELSE /\ (o = s \/ IsAncestor(o, s) = TRUE)
+                    /\ StepEffect(s, Ev.name, Ev.fails)
+                    /\ errAtStart' = Resample(pend, pos', errEnded')
          /\ UNCHANGED <<cfg, pend, cstart, cend>>
 CloseEnd == /\ IsEv("close.end")
             /\ LET s == Ev.scope IN
